@@ -250,6 +250,13 @@ func (ra *rawAnalysis) classify(v ssa.Value, fn *ssa.Function, out map[string]bo
 		ra.classify(x.X, fn, out, depth+1)
 	case *ssa.Lookup:
 		out["table"] = true
+	case *ssa.Index:
+		// one byte out of a constant alphabet of letters and digits (the hex digit table, whose constancy R04.1 decides)
+		if isHexDigit(x) || alnumConst(x.X) {
+			out["const"] = true
+			return
+		}
+		out["unknown"] = true
 	case *ssa.UnOp:
 		if x.Op != token.MUL {
 			out["unknown"] = true
@@ -675,4 +682,19 @@ func (mr *ModeReach) constEmissions() []constEmit {
 		}
 	}
 	return out
+}
+
+// alnumConst: v is a constant string of ASCII letters and digits only.
+func alnumConst(v ssa.Value) bool {
+	str, ok := constString(v)
+	if !ok || str == "" {
+		return false
+	}
+	for i := 0; i < len(str); i++ {
+		c := str[i]
+		if !(c >= '0' && c <= '9' || c >= 'a' && c <= 'z' || c >= 'A' && c <= 'Z') {
+			return false
+		}
+	}
+	return true
 }
